@@ -38,7 +38,7 @@ def profile(name, rng):
         base.update(maxtasks=rng.choice([None, 1, 2, 5]), n=rng.choice([1, 2, 3, 4, 6]))
         w.update(map=1, imap=0.6, imap_u=0.6, die=1.5, supervise=5, grow=0.5, shrink=0.5)
     elif name == 'c10':
-        base.update(putlocks=True, maxtasks=rng.choice([None, None, 2]),
+        base.update(putlocks=rng.choice([True, True, 'percall']), maxtasks=rng.choice([None, None, 2]),
                     pool_hard=rng.choice([None, None, 2.0]), job_limits=[1.0, 2.0],
                     max_jobs=rng.choice([6, 10, 16]))
         w.update(apply=8, die=0.6, grow=0.3, shrink=0.3, map=0.6, imap_u=0.4,
